@@ -226,11 +226,25 @@ class _Judge:
             d[f.get('why', '?')] = d.get(f.get('why', '?'), 0) + 1
         elif st in VIOLATING:
             key = finding_key(case, f)
-            if not ctx.known_finding(key, describe(case, f)):
+            if not ctx.known_finding(key, describe(case, f)) and not self.known_exhaustion(key, st, case, f):
                 self.new.setdefault(key, []).append(case + '\t' + reply)
         elif origin == 'corpus' and st in ('ok', 'err'):
             self.regressions_ok += 1
         return st
+
+    def known_exhaustion(self, key, st, case, f):
+        """hang / oom only: WHERE the hung or allocating goroutine is sampled (inside the third-party decoder, in the extractor's own loop, in
+        the standard library one step later) and WHICH of the two watchdogs fires first depend on timing and load. A hang / oom of an
+        extractor that already has a recorded hang / oom class is therefore filed under that recorded class (the first one listed), with the
+        sampled site in the text; a crash (panic / fatal) is never treated this way, and an extractor without a recorded exhaustion class
+        gets a VIOLATION. Cost, stated: a SECOND resource-exhaustion defect in such an extractor would be absorbed."""
+        if st not in ('hang', 'oom'):
+            return False
+        ext = (case.split(' ') + ['?', '?'])[1].replace('/', '-')
+        for k in sorted(self.ctx.known):
+            if k.startswith('C02/%s-hang-' % ext) or k.startswith('C02/%s-oom-' % ext):
+                return self.ctx.known_finding(k, describe(case, f) + ' [sampled as %s; filed under the recorded exhaustion class of this extractor]' % key)
+        return False
 
     def finish(self):
         ctx = self.ctx
